@@ -94,7 +94,7 @@ def judge(obs, pos, amount, p, m, spread, feename, integer):
         # two admissible readings (the other, meeting the budget, is judged below)
         q = -pos
         exp_spent = ref.trade_cost(q, p, m, spread, fee)
-        if abs(obs["spent"] - exp_spent) > 1e-9 * max(1.0, abs(exp_spent)):
+        if not (abs(obs["spent"] - exp_spent) <= 1e-9 * max(1.0, abs(exp_spent))):
             return ("booked_cost", {"q": q, "spent": exp_spent})
         return None
     if amount == -value and pos != 0.0:
@@ -102,7 +102,7 @@ def judge(obs, pos, amount, p, m, spread, feename, integer):
             return ("closing_amount_closes", {"position_after": 0.0})
         q = -pos
         exp_spent = ref.trade_cost(q, p, m, spread, fee)
-        if abs(obs["spent"] - exp_spent) > 1e-9 * max(1.0, abs(exp_spent)):
+        if not (abs(obs["spent"] - exp_spent) <= 1e-9 * max(1.0, abs(exp_spent))):
             return ("booked_cost", {"q": q, "spent": exp_spent})
         return None
     if integer:
@@ -115,7 +115,7 @@ def judge(obs, pos, amount, p, m, spread, feename, integer):
         if q != qstar:
             return ("largest_affordable", {"q": qstar, "cost_of_q": ref.trade_cost(qstar, p, m, spread, fee), "cost_of_q_plus_1": ref.trade_cost(qstar + 1, p, m, spread, fee)})
         exp_spent = ref.trade_cost(q, p, m, spread, fee)
-        if abs(obs["spent"] - exp_spent) > 1e-9 * max(1.0, abs(exp_spent)):
+        if not (abs(obs["spent"] - exp_spent) <= 1e-9 * max(1.0, abs(exp_spent))):
             return ("booked_cost", {"q": q, "spent": exp_spent})
         return None
     # fractional: the cost equals the amount
@@ -129,7 +129,7 @@ def judge(obs, pos, amount, p, m, spread, feename, integer):
             return ("fractional_cost_equals_amount", {"spent": amount})
         return None
     exp_spent = ref.trade_cost(q, p, m, spread, fee)
-    if abs(obs["spent"] - exp_spent) > 1e-9 * max(1.0, abs(exp_spent)):
+    if not (abs(obs["spent"] - exp_spent) <= 1e-9 * max(1.0, abs(exp_spent))):
         return ("booked_cost", {"q": q, "spent": exp_spent})
     if abs(obs["spent"] - amount) > 2e-8 + 1e-9 * abs(amount):
         return ("fractional_cost_equals_amount", {"spent": amount})
@@ -297,6 +297,50 @@ def config_case(item):
             obs = {"raised": rt.guard_id(e) or ("crash:" + rt.describe(e))}
         j = judge(obs, 0.0, amount, p, 1.0, None, feename, integer)
         what = {"levels": depth, "fee": feename}
+    elif kind == "sec_class":
+        # every security class sizes with the multiplier it was constructed with
+        _, p, cls, mult, feename, integer, amount = item
+        data = pd.DataFrame({"x": [p, p, p], "y": [1.0, 1.0, 1.0]}, index=idx, dtype=float)
+        sec = getattr(bt, cls)("x", multiplier=mult)
+        root = bt.Strategy("r", [], [sec, bt.Security("y")])
+        root.use_integer_positions(integer)
+        if feename is not None:
+            root.set_commissions(T.FeeSpy(feename))
+        kw = {}
+        if cls.startswith("CouponPaying"):
+            kw["coupons"] = pd.DataFrame({"x": [0.0, 0.0, 0.0]}, index=idx)
+        root.setup(data, **kw)
+        root.adjust(CAP)
+        root.update(idx[0])
+        root.update(idx[1])
+        c0 = root.capital
+        try:
+            root.allocate(amount, child="x")
+            root.update(root.now)
+            obs = {"q": float(root["x"].position), "spent": c0 - root.capital, "pos1": float(root["x"].position), "value0": 0.0}
+        except Exception as e:
+            obs = {"raised": rt.guard_id(e) or ("crash:" + rt.describe(e))}
+        j = judge(obs, 0.0, amount, p, float(mult), None, feename, integer)
+        what = {"class": cls, "multiplier": mult, "fee": feename}
+    elif kind == "backtest_gap":
+        # inside a Backtest: a request on a date whose price is missing (after a valid quote) is refused with an error
+        _, p, integer, amount = item
+        data = pd.DataFrame({"x": [p, float("nan"), p], "y": [1.0, 1.0, 1.0]}, index=idx, dtype=float)
+
+        class AllocGap(bt.core.Algo):
+            def __call__(self, target):
+                if target.now == idx[1]:
+                    target.allocate(amount, child="x")
+                return True
+
+        b = bt.Backtest(bt.Strategy("t", [AllocGap()], [bt.Security("x"), bt.Security("y")]), data, initial_capital=CAP, integer_positions=integer, progress_bar=False)
+        try:
+            b.run()
+            obs = {"q": float(b.strategy["x"].position), "spent": CAP - float(b.strategy.capital), "pos1": float(b.strategy["x"].position), "value0": 0.0}
+        except Exception as e:
+            obs = {"raised": rt.guard_id(e) or ("crash:" + rt.describe(e))}
+        j = judge(obs, 0.0, amount, float("nan"), 1.0, None, None, integer)
+        what = {"price_on_the_date": "missing (valid the day before)"}
     else:
         _, p, pre, arg, feename, amount, decl = item
         data = pd.DataFrame({"x": [p, p, p]}, index=idx, dtype=float)
@@ -321,7 +365,8 @@ def config_case(item):
         what = {"template_mode_before": pre, "backtest_integer_positions": arg, "fee": feename}
     if j is None:
         return (1, 1 if obs.get("q") else 0, [])
-    return (1, 0, [{"rule": j[0], "expected": dict(j[1], configured=what), "observed": obs, "point": [None, None, None, None, None, None, None, "config", list(item)]}])
+    exp = dict(j[1], configured=what) if isinstance(j[1], dict) else {"outcome": j[1], "configured": what}
+    return (1, 0, [{"rule": j[0], "expected": exp, "observed": obs, "point": [None, None, None, None, None, None, None, "config", list(item)]}])
 
 
 def replay(case):
@@ -435,6 +480,8 @@ def run(ctx):
                 ctx.violation(dict(v, build=kind, module=MOD, case={"point": pt}))
     conf = [("deep_fee", p, depth, fe, integer, a) for p in (2.5, 100.0) for depth in (2, 3, 4) for fe in ("flat", "pershare", "prop") for integer in (True, False) for a in (123.45, 1234.5, 7.7)]
     conf += [("backtest_mode", p, pre, arg, fe, a, decl) for p in (2.5, 100.0) for pre in (None, True, False) for arg in (True, False) for fe in (None, "flat") for a in (123.45, 1234.5) for decl in ("lazy", "eager")]
+    conf += [("sec_class", p, cls, mult, fe, integer, a) for p in (2.5, 100.0) for cls in ("Security", "FixedIncomeSecurity", "HedgeSecurity", "CouponPayingSecurity", "CouponPayingHedgeSecurity") for mult in (1, 5) for fe in (None, "flat") for integer in (True, False) for a in (1234.5, 12345.6)]
+    conf += [("backtest_gap", p, integer, a) for p in (2.5, 100.0) for integer in (True, False) for a in (123.45, -50.0)]
     for kind in kinds:
         for item, (n, nontrivial, viols) in ctx.run(kind, MOD, "config_case", conf, chunksize=8):
             ctx.add(states=n, transitions=n, traces_validated_against_impl=n, evaluations=n)
